@@ -40,7 +40,8 @@ CONSTS = {"CHUNK_ALIGN", "FOOTER_SIZE", "OVERHEAD", "TYPICAL_PAGE_SIZE", "DEFAUL
 NAT, BOOL, UNIT, LAYOUT, DETAILS, CHUNK, ORD, BUMP = "nat", "bool", "unit", "layout", "details", "chunk", "ordering", "bump"
 RAWVEC, RERR, STRATEGY, FALLIB = "rawvec", "rerr", "strategy", "fallibility"
 CHUNKLIST, CELLPREV = "chunklist", "cellprev"
-ELEM, SLOT, VECSELF = "elem", "slot", "vecself"
+ELEM, SLOT, VECSELF, GUARD = "elem", "slot", "vecself", "guard"
+EXTW = "extendwith"      # `impl ExtendWith<T>`: the one implementor, `ExtendElement(value)`, is the value it clones
 
 
 def res2(t): return ("res2", t)
@@ -67,6 +68,8 @@ def lean_ty(t):
     if t == STRATEGY: return "Rs.Strategy"
     if t == ELEM: return "V.Elem"
     if t == SLOT: return "Nat"
+    if t == GUARD: return "Nat"
+    if t == EXTW: return "V.Elem"
     if t == FALLIB: return "Rs.Fallibility"
     if isinstance(t, tuple) and t[0] == "tuple": return "(" + " × ".join(lean_ty(x) for x in t[1]) + ")"
     if t == "selfstruct": raise Untranslatable("the receiver struct is not a value")
@@ -79,6 +82,7 @@ def rust_ty(text):
     if t in ("usize", "*mutu8", "*constu8", "NonNull<u8>", "*mutT", "*constT", "NonNull<T>"): return NAT
     if t == "bool": return BOOL
     if t == "T": return ELEM
+    if t == "E": return EXTW
     if t in ("()", ""): return UNIT
     if t == "Layout": return LAYOUT
     if t == "NewChunkMemoryDetails": return DETAILS
@@ -186,6 +190,16 @@ FUNCS += [
     Fn("remove", "vec", "st", file=VEC_RS, group="Vec", anchor=VEC_IMPL, lean="vec_remove"),
     Fn("swap_remove", "vec", "st", file=VEC_RS, group="Vec", anchor=VEC_IMPL, lean="vec_swap_remove"),
 ]
+FUNCS += [
+    Fn("increment_len", "guard", "pure", file=VEC_RS, group="Vec", anchor="impl<'a> SetLenOnDrop<'a>", lean="slod_increment_len",
+       self_fields=[("local_len", "usize")]),
+    Fn("decrement_len", "guard", "pure", file=VEC_RS, group="Vec", anchor="impl<'a> SetLenOnDrop<'a>", lean="slod_decrement_len",
+       self_fields=[("local_len", "usize")]),
+    Fn("truncate", "vec", "st", file=VEC_RS, group="Vec", anchor=VEC_IMPL, lean="vec_truncate"),
+    Fn("extend_with", "vec", "st", file=VEC_RS, group="Vec", lean="vec_extend_with"),
+    Fn("resize", "vec", "st", file=VEC_RS, group="Vec", lean="vec_resize"),
+    Fn("clear", "vec", "st", file=VEC_RS, group="Vec", anchor=VEC_IMPL, lean="vec_clear"),
+]
 FN = {f.name: f for f in FUNCS}
 # names that exist on several receivers: the table is per receiver kind
 FN_BY_KIND = {}
@@ -225,6 +239,9 @@ class Env:
         e = self.copy()
         e.owned = [x for x in e.owned if x != ln]
         return e
+
+    def guards(self):
+        return [x[1] for x in self.owned if isinstance(x, tuple)]
 
     def fresh(self, name):
         name = name.replace("self.", "self_")
@@ -312,7 +329,10 @@ class Tr:
             return None
         t = self.sv
         for ln in reversed(env.owned):     # newest first
-            t = f"(RsM.drop_elem c {ln} {t})"
+            if isinstance(ln, tuple):      # a `SetLenOnDrop` guard: its destructor stores the length it carries
+                t = f"(RsM.store_len {env.d[ln[1]][0]} {t})"
+            else:
+                t = f"(RsM.drop_elem c {ln} {t})"
         return t
 
     def panic(self, env=None):
@@ -355,6 +375,25 @@ class Tr:
             raise Untranslatable(f"return of {term} : {ty} from a function returning Result<_, CollectionAllocErr>")
         return self.wrap(f"Outcome.ok {term}")
 
+    def RET_END(self, t, ty, env):
+        """the function's value is ready: the locals that still own a value (and are not the value returned) are dropped,
+        newest first; a destructor that panics unwinds through the rest"""
+        if self.fn.kind != "vec":
+            return self.RET(t, ty, env)
+        for ln in list(env.owned):
+            if not isinstance(ln, tuple) and re.search(r"(?<![A-Za-z0-9_.'])%s(?![A-Za-z0-9_'])" % re.escape(ln), t):
+                env = env.disown(ln)
+        order = [x for x in reversed(env.owned) if not isinstance(x, tuple)]
+        if env.guards():
+            raise Untranslatable("a drop guard is live at the end of the function")
+
+        def go(j, e):
+            if j == len(order):
+                return self.RET(t, ty, e)
+            e2 = e.disown(order[j])
+            return self.bind_call(f"RsM.drop_local c {order[j]}", "st", K(lambda t_, ty_, e3: go(j + 1, e3)), e2, UNIT)
+        return go(0, env)
+
     def bind_call(self, call, callee_mode, k, env, ty, footers=True, nopanic=False):
         """call = lean application without the state argument; result bound to a fresh name.
         footers=False: a primitive that changes no footer field (global allocator call, memory copy)"""
@@ -389,7 +428,7 @@ class Tr:
         """returns (prefix, k') where k' calls a join function when the continuation would be duplicated.
         Join functions are lambda-lifted: emitted as top-level definitions `f.k_n` that take every binder in
         scope as a parameter (so theorems can be stated about them)."""
-        if k.trivial or nbranches <= 1 or self.no_join:
+        if k.trivial or nbranches <= 1 or self.no_join or getattr(self, "branch_moves", False):
             return "", k
         self.nj += 1
         name = f"{self.fn.lean}.k_{self.nj}"
@@ -446,7 +485,7 @@ class Tr:
             if len(segs) == 1 and segs[0] in env.d:
                 return env.d[segs[0]]
             if segs == ["self"]:
-                if self.fn.kind == "iter":
+                if self.fn.kind in ("iter", "guard"):
                     return "self", "selfstruct"
                 if self.fn.kind == "rawvec":
                     return "v", RAWVEC
@@ -629,6 +668,11 @@ class Tr:
                 return f"(some {t})", (opt(ty) if n == "Some" else res(ty))
             if n == "Err" and len(pa) == 1:
                 return "none", res("?")
+            if segs == ["ExtendElement"] and len(pa) == 1 and pa[0][1] == ELEM:
+                return pa[0][0], EXTW
+            if segs[-2:] == ["SetLenOnDrop", "new"] and len(pa) == 1 and self.fn.kind == "vec" and args[0] == ("ref", ("field", ("path", ["self"]), "len")):
+                # the guard starts with the vector's current length and stores what it carries when its scope ends
+                return pa[0][0], GUARD
             if segs[-2:] == ["NonNull", "new_unchecked"] and len(pa) == 1: return pa[0]
             if segs[-2:] == ["Cell", "new"] and len(pa) == 1: return pa[0]
             if segs[-2:] == ["NonNull", "new"] and len(pa) == 1 and pa[0][1] == NAT:
@@ -750,6 +794,10 @@ class Tr:
             return self.E(e[1], env, K(kc, k.trivial))
         if kind in ("try", "return") and self.in_closure:
             raise Untranslatable("`?` / `return` inside a closure")
+        if kind in ("try", "return") and env.guards():
+            raise Untranslatable("`?` / `return` while a drop guard is live")
+        if kind == "for":
+            return self.FOR(e, env, k)
         if kind == "try":
             def kt(t, ty, env_):
                 if isinstance(ty, tuple) and ty[0] == "res2":
@@ -876,7 +924,12 @@ class Tr:
         def kc(tc, tyc, env_):
             nfall = int(falls(then)) + (int(falls(els)) if els is not None else 1)
             vty = self.value_type(then, env_) if els is not None else UNIT
+            # a branch that mentions an owned local may move it: ownership then differs per branch (Rust's drop flags), so
+            # the continuation is translated once per branch instead of being shared
+            owned_rust = {r for r, (ln, _) in env_.d.items() if ln in env_.owned}
+            self.branch_moves = bool(owned_rust & (mentioned(then) | (mentioned(els) if els is not None else set())))
             pre, kj = self.join(k, vty, env_, mutated, nfall)
+            self.branch_moves = False
             kb = K(lambda t, ty, eb: kj(t, ty, eb.restrict_to(env_)), True)
             ver = self.version
             a = self.E(then, env_, kb)
@@ -1047,6 +1100,9 @@ class Tr:
             else:
                 coerced.append(paren(t))
         call = " ".join([f"Gen.Fn.{g.lean}"] + lead + coerced)
+        for t, ty in pa:
+            if ty in (ELEM, EXTW) and t in env.owned:      # passed by value: the callee owns (and drops) it from here on
+                env = env.disown(t)
         if g.mode == "read":
             call += " " + self.sv
         vty = rty
@@ -1129,6 +1185,67 @@ class Tr:
             del env2.d[m]
         return self.bind_call(call, "st", k, env2, ty_b)
 
+    def FOR(self, e, env, k):
+        """`for _ in lo..hi { body }`: a lambda-lifted function, structurally recursive on the number of iterations left,
+        that returns the final values of the locals the body rebinds.  A panic inside the body runs the whole frame's
+        drop glue there (with the values current at that point), so the call site does not run it again."""
+        _, pat, (_, lo, hi), body = e
+        if pat[0] != "pwild":
+            raise Untranslatable("`for` with a loop variable")
+        if not self.st:
+            raise Untranslatable("loop in a function translated without state")
+        plo, phi = self.pure(lo, env), self.pure(hi, env)
+        if plo is None or phi is None or plo[1] != NAT or phi[1] != NAT:
+            raise Untranslatable("range bounds")
+        muts = sorted((assigned(body) | guard_calls(body)) & set(env.d))
+        for m in muts:
+            if not lean_ty_ok(env.d[m][1]):
+                raise Untranslatable(f"loop state {m} : {env.d[m][1]}")
+        self.nj += 1
+        name = f"{self.fn.lean}.loop_{self.nj}"
+        old_mut_names = [env.d[m][0] for m in muts]
+        captured = [(ln, t) for ln, t in env.scope if lean_ty_ok(t) and ln not in old_mut_names]
+        envl = env.copy()
+        envl.scope = [(ln, t) for ln, t in envl.scope if ln not in old_mut_names]
+        envl, n = envl.bind("n", NAT)
+        envl, n1 = envl.bind("n", NAT)
+        mut_params = []
+        for m in muts:
+            envl, ln = envl.bind(m, env.d[m][1])
+            mut_params.append(f"({ln} : {lean_ty(env.d[m][1])})")
+        tys = [lean_ty(env.d[m][1]) for m in muts]
+        rty = "Unit" if not muts else (tys[0] if len(muts) == 1 else "(" + " × ".join(tys) + ")")
+
+        def pack(e_):
+            vals = [e_.d[m][0] for m in muts]
+            return "()" if not vals else (vals[0] if len(vals) == 1 else "(" + ", ".join(vals) + ")")
+        lead_args = " ".join(self.lead_names)
+        cap_args = " ".join(ln for ln, _ in captured)
+        saved_version = self.version
+        self.in_closure += 1
+        self.no_join += 1
+        self.bump_version()
+        inner = self.E(body, envl, K(lambda t, ty, e_: f"(Gen.Fn.{name} {lead_args} {cap_args} {n1} {' '.join(e_.d[m][0] for m in muts)} {self.sv})"))
+        self.in_closure -= 1
+        self.no_join -= 1
+        self.version = saved_version
+        params = [f"({ln} : {lean_ty(t)})" for ln, t in captured]
+        self.lifted.append(
+            f"def {name} {' '.join(self.lead)} {' '.join(params)} ({n} : Nat) {' '.join(mut_params)} ({self.sv} : {self.sty}) : {self.sty} × Outcome {rty} :=\n"
+            + indent(f"(match {n} with\n| 0 => ({self.sv}, Outcome.ok {pack(envl)})\n| {n1} + 1 =>\n{inner})") + "\n")
+        call = f"Gen.Fn.{name} {lead_args} {cap_args} ({phi[0]} - {plo[0]}) {' '.join(env.d[m][0] for m in muts)}"
+
+        def kafter(r, ty_, e2):
+            lines, e3 = [], e2
+            for j, m in enumerate(muts):
+                e3, ln = e3.bind(m, env.d[m][1])
+                proj = r if len(muts) == 1 else (f"{r}.{j + 1}" if j < len(muts) - 1 or len(muts) == 1 else f"{r}" + ".2" * j)
+                if len(muts) > 1:
+                    proj = r + "".join(".2" for _ in range(j)) + (".1" if j < len(muts) - 1 else "")
+                lines.append(f"let {ln} := {proj};")
+            return "\n".join(lines) + ("\n" if lines else "") + k("()", UNIT, e3)
+        return self.bind_call(call, "st", K(kafter), env, ("tuple", [env.d[m][1] for m in muts]) if len(muts) > 1 else (env.d[muts[0]][1] if muts else UNIT), nopanic=True)
+
     def MCALL(self, e, env, k):
         recv, name, args = e[1], e[2], e[3]
         if name == "next" and not args and recv[0] == "mcall" and recv[2] == "filter_map" and len(recv[3]) == 1 \
@@ -1143,6 +1260,30 @@ class Tr:
             if name in EXTERNAL_RV:
                 lf, mode, rty = EXTERNAL_RV[name]
                 return self.args(args, env, lambda pa, env_: self.bind_call(f"{lf} c {sp(pa)}", mode, k, env_, rty))
+        if recv[0] == "path" and len(recv[1]) == 1 and recv[1][0] in env.d and env.d[recv[1][0]][1] == GUARD and ("guard", name) in FN_BY_KIND:
+            g = FN_BY_KIND[("guard", name)]
+            if g.sig is None:
+                raise Untranslatable(f"SetLenOnDrop::{name} is called but could not be translated itself")
+            gname = recv[1][0]
+
+            def kg(pa, env_):
+                def kres(r, ty_, e2):
+                    e3, ln = e2.bind(gname, GUARD)
+                    return f"let {ln} := {r}.2;\n{k('()', UNIT, e3)}"
+                return self.bind_call(f"Gen.Fn.{g.lean} {env_.d[gname][0]} {sp(pa)}", "pure", K(kres), env_, ("tuple", [UNIT, NAT]))
+            return self.args(args, env, kg)
+        if recv[0] == "path" and len(recv[1]) == 1 and recv[1][0] in env.d and env.d[recv[1][0]][1] == EXTW and not args:
+            ln = env.d[recv[1][0]][0]
+            if name == "next":      # `self.0.clone()`: may panic; the generator keeps its value
+                e2, r = env.bind("x", ELEM)
+                self.bump_version()
+                cl = self.cleanup(env)
+                body = k(r, ELEM, e2.own(r))
+                if cl is not None:
+                    return f"(RsM.bindU (RsM.clone_next c {ln} {self.sv}) (fun {self.sv} => {cl}) fun {self.sv} {r} =>\n{body})"
+                return f"(RsM.bindW (RsM.clone_next c {ln} {self.sv}) fun {self.sv} {r} =>\n{body})"
+            if name == "last":      # `self.0`: the value itself moves out
+                return k(ln, ELEM, env.disown(ln).own(ln))
         if recv == ("path", ["self"]) and self.fn.kind == "vec" and ("vec", name) in FN_BY_KIND:
             return self.args(args, env, lambda pa, env_: self.call_fn(FN_BY_KIND[("vec", name)], None, pa, env_, k))
         if recv == ("field", ("path", ["self"]), "buf") and self.fn.kind == "vec" and ("rawvec", name) in FN_BY_KIND:
@@ -1244,9 +1385,23 @@ class Tr:
 
         def go(i, env_):
             if i == len(stmts):
+                def finish(t, ty, e2):
+                    gs = [g for g in reversed(e2.guards()) if g not in outer.guards()]
+                    if not gs:
+                        return k(t, ty, e2.restrict_to(outer))
+                    if mentions_state(t, self.sv):
+                        raise Untranslatable("block value reads the state while a guard is dropped")
+
+                    def drop(j, e3):
+                        if j == len(gs):
+                            e4 = e3.copy()
+                            e4.owned = [x for x in e4.owned if not (isinstance(x, tuple) and x[1] in gs)]
+                            return k(t, ty, e4.restrict_to(outer))
+                        return self.bind_call(f"RsM.set_len {e3.d[gs[j]][0]}", "st", K(lambda t_, ty_, e5: drop(j + 1, e5)), e3, UNIT, nopanic=True)
+                    return drop(0, e2)
                 if tail is None:
-                    return k("()", UNIT, env_.restrict_to(outer))
-                return self.E(tail, env_, K(lambda t, ty, e2: k(t, ty, e2.restrict_to(outer)), k.trivial))
+                    return finish("()", UNIT, env_)
+                return self.E(tail, env_, K(finish, k.trivial and not env_.guards()))
             st = stmts[i]
             if st[0] == "let":
                 pat, init = st[1], st[2]
@@ -1267,6 +1422,10 @@ class Tr:
                 def kl(t, ty, e2):
                     if pat[0] == "pid":
                         e3, ln = e2.bind(pat[1], ty)
+                        if ty in (ELEM, EXTW) and t in e3.owned:      # a move: the new local owns the value now
+                            e3 = e3.disown(t).own(ln)
+                        if ty == GUARD:
+                            e3.owned.append(("guard", pat[1]))
                         if ty == CHUNK:
                             # a copy of another local keeps that local's age; a fresh read of the arena is current
                             self.chunk_ver[ln] = self.chunk_ver.get(t, self.version) if re.fullmatch(r"[A-Za-z_][A-Za-z0-9_]*", t) else self.version
@@ -1294,8 +1453,10 @@ class Tr:
                 return self.E(init, env_, K(kl))
             if st[0] == "assign":
                 op, lhs, rhs = st[1], st[2], st[3]
-                if lhs[0] == "field" and lhs[1] == ("path", ["self"]) and ("self." + lhs[2]) in env_.d and op == "=":
+                if lhs[0] == "field" and lhs[1] == ("path", ["self"]) and ("self." + lhs[2]) in env_.d:
                     key = "self." + lhs[2]
+                    if op != "=":
+                        rhs = ("bin", op[:-1], lhs, rhs)
 
                     def kself(t, ty, e2):
                         e3, ln = e2.bind(key, ty)
@@ -1321,6 +1482,8 @@ class Tr:
 
                 def ka(t, ty, e2):
                     e3, ln = e2.bind(name, ty)
+                    if ty in (ELEM, EXTW) and t in e3.owned:
+                        e3 = e3.disown(t).own(ln)
                     return f"let {ln} := {t};\n{go(i + 1, e3)}"
                 return self.E(val, env_, K(ka))
             if st[0] == "expr":
@@ -1358,12 +1521,12 @@ class Tr:
                 continue
             ty = rust_ty(t)
             env, ln = env.bind(n, ty)
-            if ty == ELEM and self.fn.kind == "vec":
+            if ty in (ELEM, EXTW) and self.fn.kind == "vec":
                 env = env.own(ln)
             params.append(f"({ln} : {lean_ty(ty)})")
         if self.mode in ("read", "st"):
             params.append(f"({self.sv} : {self.sty})")
-        body = self.E(self.body, env, K(lambda t, ty, e: self.RET(t, ty, e), True))
+        body = self.E(self.body, env, K(lambda t, ty, e: self.RET_END(t, ty, e), True))
         head = f"def {self.fn.lean} {' '.join(params)} : {self.ret_lean_ty()} :="
         return "\n".join(self.lifted) + ("\n" if self.lifted else "") + f"/-- `{self.fn.file}`: `fn {self.fn.name}` -/\n" + head + "\n" + indent(body) + "\n"
 
@@ -1411,6 +1574,34 @@ def assigned(e):
     elif isinstance(e, list):
         for x in e:
             out |= assigned(x)
+    return out
+
+
+def mentioned(e):
+    """single-segment paths occurring anywhere in an AST"""
+    out = set()
+    if isinstance(e, tuple):
+        if e and e[0] == "path" and len(e[1]) == 1:
+            out.add(e[1][0])
+        for x in e:
+            out |= mentioned(x)
+    elif isinstance(e, list):
+        for x in e:
+            out |= mentioned(x)
+    return out
+
+
+def guard_calls(e):
+    """locals on which a `SetLenOnDrop` method is called anywhere inside an AST (those calls rebind the guard)"""
+    out = set()
+    if isinstance(e, tuple):
+        if e and e[0] == "mcall" and e[2] in ("increment_len", "decrement_len") and e[1][0] == "path" and len(e[1][1]) == 1:
+            out.add(e[1][1][0])
+        for x in e:
+            out |= guard_calls(x)
+    elif isinstance(e, list):
+        for x in e:
+            out |= guard_calls(x)
     return out
 
 
